@@ -199,16 +199,16 @@ def tt4Activate (t : TagType) (s : St) : R (Option TagType) :=
 def activateBody (f : Found) (s : St) : R (Option TagType) :=
   if f.tech = 1 then
     if f.sens.getD 1 0 % 16 = 12 then
-      -- tt1_broadcom.activate reads `target.rid_res[0:2]`: TypeError without RID response (open
-      -- finding; sense() asks for the RID response only when SENS_RES byte 0 says Type 1 platform);
-      -- otherwise Topaz / Topaz512 / Type1Tag, no command
-      (if f.rid.isEmpty then (.error .type_, s) else (.ok (some .tt1), s))
+      -- repaired (fixes/C18/0004): tt1.activate returns None without a RID response (sense() asks for
+      -- the RID response only when SENS_RES byte 0 says Type 1 platform); otherwise Topaz / Topaz512 /
+      -- Type1Tag, no command
+      (if f.rid.isEmpty then (.ok none, s) else (.ok (some .tt1), s))
     else if f.selRes / 32 % 4 = 0 then tt2Activate f s
     else if f.selRes / 32 % 2 = 1 then tt4Activate .tt4a s
     else (.ok none, s)
   else if f.tech = 2 then tt4Activate .tt4b s
   else if f.tech = 3 then (if f.p2p then (.ok none, s) else (.ok (some .tt3), s))   -- no command
-  else (.error .type_, s)     -- found by sense_dep: brty 106A without sens_res (open finding)
+  else (.ok none, s)          -- repaired (fixes/C18/0003): found by sense_dep, no sens_res: not a tag
 
 /-- `nfc.tag.activate`: `except nfc.clf.CommunicationError: return None`.  The call itself is an
 event of the history (`act`, with the target as its "answer"; it consumes nothing of the script). -/
